@@ -12,34 +12,263 @@ once an entry is not `Less`, every later entry is `Greater`. -/
 def MonoKey {α} (f : α → Ordering) (l : List α) : Prop :=
   ∀ (i j : Nat) (hij : i < j) (hj : j < l.length), f (l[i]'(by omega)) ≠ .lt → f l[j] = .gt
 
+theorem bsearchLoop_range {α} [Inhabited α] (t : Array α) (f : α → Ordering) (size base : Nat)
+    (hs : 1 ≤ size) :
+    base ≤ bsearchLoop t f size base ∧ bsearchLoop t f size base < base + size := by
+  fun_induction bsearchLoop t f size base with
+  | case1 size base h half mid cmp base' ih =>
+    have := ih (by omega)
+    by_cases hc : cmp = .gt
+    · have hb' : base' = base := by simp [base', hc]
+      rw [hb'] at this ⊢; omega
+    · have hb' : base' = mid := by simp [base', hc]
+      rw [hb'] at this ⊢; omega
+  | case2 size base h => omega
+
+/-- array form of `MonoKey` using `t[i]!` -/
+def ArrMono {α} [Inhabited α] (f : α → Ordering) (t : Array α) : Prop :=
+  ∀ i j, i < j → j < t.size → f t[i]! ≠ .lt → f t[j]! = .gt
+
+theorem arrMono_of_monoKey {α} [Inhabited α] (f : α → Ordering) (t : Array α)
+    (hm : MonoKey f t.toList) : ArrMono f t := by
+  intro i j hij hj hne
+  have hj' : j < t.toList.length := by simpa using hj
+  have := hm i j hij hj'
+  simp only [Array.getElem_toList] at this
+  rw [getElem!_pos t i (by omega)] at hne
+  rw [getElem!_pos t j hj]
+  exact this hne
+
+theorem bsearchLoop_inv {α} [Inhabited α] (t : Array α) (f : α → Ordering) (hm : ArrMono f t)
+    (size base : Nat) (hs : 1 ≤ size) (hb : base + size ≤ t.size)
+    (h1 : base = 0 ∨ f t[base]! ≠ .gt)
+    (h2 : ∀ j, base + size ≤ j → j < t.size → f t[j]! = .gt) :
+    (bsearchLoop t f size base = 0 ∨ f t[bsearchLoop t f size base]! ≠ .gt) ∧
+    ∀ j, bsearchLoop t f size base + 1 ≤ j → j < t.size → f t[j]! = .gt := by
+  fun_induction bsearchLoop t f size base with
+  | case1 size base h half mid cmp base' ih =>
+    by_cases hc : cmp = .gt
+    · have hb' : base' = base := by simp [base', hc]
+      rw [hb'] at ih ⊢
+      apply ih (by omega) (by omega) h1
+      intro j hj hjt
+      by_cases hjm : j = mid
+      · subst hjm; exact hc
+      · exact hm mid j (by omega) hjt (by rw [show f t[mid]! = .gt from hc]; decide)
+    · have hb' : base' = mid := by simp [base', hc]
+      rw [hb'] at ih ⊢
+      apply ih (by omega) (by omega) (Or.inr hc)
+      intro j hj hjt
+      exact h2 j (by omega) hjt
+  | case2 size base h =>
+    have : size = 1 := by omega
+    subst this
+    exact ⟨h1, h2⟩
+
 theorem bsearchBy_ok {α} [Inhabited α] (t : Array α) (f : α → Ordering) (i : Nat)
     (h : bsearchBy t f = .ok i) : ∃ (hi : i < t.size), f t[i] = .eq := by
-  sorry
+  unfold bsearchBy at h
+  split at h
+  · cases h
+  · rename_i hne
+    have hpos : 1 ≤ t.size := by
+      have : t.size ≠ 0 := by simpa using hne
+      omega
+    have hr := bsearchLoop_range t f t.size 0 hpos
+    simp only at h
+    split at h
+    · rename_i hc
+      injection h with h
+      subst h
+      refine ⟨by omega, ?_⟩
+      rw [getElem!_pos t _ (by omega)] at hc
+      simpa using hc
+    · cases h
 
 theorem bsearchBy_error {α} [Inhabited α] (t : Array α) (f : α → Ordering)
     (hm : MonoKey f t.toList) (i : Nat) (h : bsearchBy t f = .error i) :
     ∀ x ∈ t.toList, f x ≠ .eq := by
-  sorry
+  intro x hx
+  rw [Array.mem_toList_iff, Array.mem_iff_getElem] at hx
+  obtain ⟨k, hk, rfl⟩ := hx
+  unfold bsearchBy at h
+  split at h
+  · rename_i h0
+    have : t.size = 0 := by simpa using h0
+    omega
+  · simp only at h
+    split at h
+    · cases h
+    · rename_i hc
+      have ham := arrMono_of_monoKey f t hm
+      have hr := bsearchLoop_range t f t.size 0 (by omega)
+      have hinv := bsearchLoop_inv t f ham t.size 0 (by omega) (by omega) (Or.inl rfl)
+        (by intro j hj hjt; omega)
+      generalize bsearchLoop t f t.size 0 = r at *
+      obtain ⟨h1, h2⟩ := hinv
+      have hc' : f t[r]! ≠ .eq := by simpa using hc
+      intro he
+      rw [← getElem!_pos t k hk] at he
+      by_cases hkr : k = r
+      · subst hkr; exact hc' he
+      · by_cases hlt : k < r
+        · have := ham k r hlt (by omega) (by rw [he]; decide)
+          rcases h1 with h1 | h1
+          · omega
+          · exact h1 this
+        · have := h2 k (by omega) hk
+          rw [he] at this; cases this
 
 /-- with a monotone key at most one entry compares `Equal` -/
 theorem monoKey_unique {α} (f : α → Ordering) (l : List α) (hm : MonoKey f l) (i j : Nat)
     (hi : i < l.length) (hj : j < l.length) (ei : f l[i] = .eq) (ej : f l[j] = .eq) : i = j := by
-  sorry
+  by_cases h1 : i < j
+  · have := hm i j h1 hj (by rw [ei]; decide)
+    rw [ej] at this; cases this
+  · by_cases h2 : j < i
+    · have := hm j i h2 hi (by rw [ej]; decide)
+      rw [ei] at this; cases this
+    · omega
+
+theorem monoKey_of_pairwise {α} (f : α → Ordering) (l : List α)
+    (h : l.Pairwise (fun a b => f a ≠ .lt → f b = .gt)) : MonoKey f l := by
+  intro i j hij hj
+  exact (List.pairwise_iff_getElem.mp h) i j (by omega) hj hij
+
+theorem sortedTable_pairwise (t : List Cps) (h : sortedTable t = true) :
+    t.Pairwise (fun a b => a.hi < b.lo) ∧ ∀ e ∈ t, e.lo ≤ e.hi + 1 := by
+  induction t with
+  | nil => simp
+  | cons e r ih =>
+    cases r with
+    | nil => simpa [sortedTable] using h
+    | cons e' r =>
+      simp only [sortedTable, Bool.and_eq_true, decide_eq_true_eq] at h
+      obtain ⟨⟨h1, h2⟩, h3⟩ := h
+      obtain ⟨ihp, ihb⟩ := ih h3
+      refine ⟨List.pairwise_cons.mpr ⟨?_, ihp⟩, ?_⟩
+      · intro x hx
+        rcases List.mem_cons.mp hx with rfl | hx
+        · exact h2
+        · have := (List.pairwise_cons.mp ihp).1 x hx
+          have := ihb e' (by simp)
+          omega
+      · intro x hx
+        rcases List.mem_cons.mp hx with rfl | hx
+        · exact h1
+        · exact ihb x hx
+
+theorem ite3 (p q : Prop) [Decidable p] [Decidable q] (o : Ordering) :
+    ((if p then Ordering.lt else if q then Ordering.gt else Ordering.eq) = o) ↔
+    (p ∧ o = .lt) ∨ (¬p ∧ q ∧ o = .gt) ∨ (¬p ∧ ¬q ∧ o = .eq) := by
+  by_cases p <;> by_cases q <;> cases o <;> simp [*]
+theorem cmpCp_eq_lt (a : Cps) (cp : Nat) : a.cmpCp cp = .lt ↔ a.hi < cp := by
+  cases a <;> simp only [Cps.cmpCp, Cps.ltCp, Cps.gtCp, Cps.hi, decide_eq_true_eq] <;> rw [ite3] <;> simp
+theorem cmpCp_ne_lt (a : Cps) (cp : Nat) : a.cmpCp cp ≠ .lt ↔ cp ≤ a.hi := by
+  rw [Ne, cmpCp_eq_lt]; omega
+theorem cmpCp_eq_gt (a : Cps) (cp : Nat) : a.cmpCp cp = .gt ↔ cp ≤ a.hi ∧ cp < a.lo := by
+  cases a <;> simp [Cps.cmpCp, Cps.ltCp, Cps.gtCp, Cps.hi, Cps.lo, ite3] 
+theorem cmpCp_eq_iff' (e : Cps) (cp : Nat) : e.cmpCp cp = .eq ↔ e.eqCp cp = true := by
+  cases e <;> simp [Cps.cmpCp, Cps.ltCp, Cps.gtCp, Cps.eqCp, ite3] <;> omega
+
+theorem cmpCp_mono (a b : Cps) (cp : Nat) (hab : a.hi < b.lo) (hb : b.lo ≤ b.hi + 1) :
+    a.cmpCp cp ≠ .lt → b.cmpCp cp = .gt := by
+  rw [cmpCp_ne_lt, cmpCp_eq_gt]; omega
+
+theorem cmpCp_pairwise (t : List Cps) (cp : Nat) (h : sortedTable t = true) :
+    t.Pairwise (fun a b => a.cmpCp cp ≠ .lt → b.cmpCp cp = .gt) := by
+  obtain ⟨hp, hb⟩ := sortedTable_pairwise t h
+  exact hp.imp_of_mem (fun _ hbm hab => cmpCp_mono _ _ cp hab (hb _ hbm))
 
 theorem monoKey_of_sorted (t : List Cps) (cp : Nat) (h : sortedTable t = true) :
-    MonoKey (fun e => e.cmpCp cp) t := by
-  sorry
+    MonoKey (fun e => e.cmpCp cp) t :=
+  monoKey_of_pairwise _ _ (cmpCp_pairwise t cp h)
 
 theorem cmpCp_eq_iff (e : Cps) (cp : Nat) (h : e.lo ≤ e.hi + 1) : e.cmpCp cp = .eq ↔ e.eqCp cp = true := by
-  sorry
+  have _ := h
+  exact cmpCp_eq_iff' e cp
 
 theorem isInTable_eq_memL (t : Array Cps) (cp : Nat) (h : sortedTable t.toList = true) :
     isInTable cp t = memL cp t.toList := by
-  sorry
+  unfold isInTable memL
+  split
+  · rename_i i hi
+    obtain ⟨hlt, he⟩ := bsearchBy_ok _ _ _ hi
+    symm
+    rw [List.any_eq_true]
+    exact ⟨t[i], by simp, (cmpCp_eq_iff' _ _).mp he⟩
+  · rename_i i hi
+    have := bsearchBy_error _ _ (monoKey_of_sorted t.toList cp h) _ hi
+    symm
+    rw [List.any_eq_false]
+    intro x hx
+    have := this x hx
+    rw [Ne, cmpCp_eq_iff'] at this
+    exact this
+
+theorem eqCp_bounds (e : Cps) (cp : Nat) (h : e.eqCp cp = true) : e.lo ≤ cp ∧ cp ≤ e.hi := by
+  cases e <;> simp [Cps.eqCp, Cps.lo, Cps.hi] at * <;> omega
+
+theorem lookupL_eq_none {V} (cp : Nat) (l : List (Cps × V))
+    (h : ∀ x ∈ l, x.1.eqCp cp = false) : lookupL cp l = none := by
+  induction l with
+  | nil => rfl
+  | cons x r ih =>
+    obtain ⟨e, v⟩ := x
+    have h0 : e.eqCp cp = false := h (e, v) (by simp)
+    simp only [lookupL, h0]
+    exact ih (fun x hx => h x (by simp [hx]))
+
+theorem lookupL_eq_some {V} (cp : Nat) (l : List (Cps × V))
+    (hp : l.Pairwise (fun a b => a.1.hi < b.1.lo)) (i : Nat) (hi : i < l.length)
+    (he : l[i].1.eqCp cp = true) : lookupL cp l = some l[i].2 := by
+  induction l generalizing i with
+  | nil => simp at hi
+  | cons x r ih =>
+    obtain ⟨e, v⟩ := x
+    cases i with
+    | zero =>
+      simp only [List.getElem_cons_zero] at he
+      simp [lookupL, he]
+    | succ k =>
+      simp only [List.getElem_cons_succ] at he ⊢
+      have hk : k < r.length := by simpa using hi
+      have h1 := (List.pairwise_cons.mp hp).1 r[k] (by simp)
+      have h2 := eqCp_bounds _ _ he
+      have h0 : e.eqCp cp = false := by
+        cases hh : e.eqCp cp
+        · rfl
+        · have := eqCp_bounds _ _ hh
+          simp only at h1
+          omega
+      simp only [lookupL, h0]
+      exact ih (List.pairwise_cons.mp hp).2 k hk he
 
 theorem lookupVal_eq_lookupL {V} [Inhabited V] (t : Array (Cps × V)) (cp : Nat)
     (h : sortedTable (t.toList.map (·.1)) = true) : lookupVal cp t = lookupL cp t.toList := by
-  sorry
+  unfold lookupVal
+  split
+  · rename_i i hi
+    obtain ⟨hlt, he⟩ := bsearchBy_ok _ _ _ hi
+    have hp := (sortedTable_pairwise _ h).1
+    rw [List.pairwise_map] at hp
+    have := lookupL_eq_some cp t.toList hp i (by simpa using hlt)
+      (by simpa using (cmpCp_eq_iff' _ _).mp he)
+    rw [this, getElem!_pos t i hlt]
+    simp
+  · rename_i i hi
+    have hm : MonoKey (fun e : Cps × V => e.1.cmpCp cp) t.toList := by
+      apply monoKey_of_pairwise
+      have := cmpCp_pairwise _ cp h
+      rw [List.pairwise_map] at this
+      exact this
+    have := bsearchBy_error _ _ hm _ hi
+    symm
+    apply lookupL_eq_none
+    intro x hx
+    have := this x hx
+    simp only [Ne, cmpCp_eq_iff'] at this
+    simpa using this
 
 /-- keys strictly ascending -/
 def sortedKeys {V} : List (Nat × V) → Bool
@@ -47,9 +276,79 @@ def sortedKeys {V} : List (Nat × V) → Bool
   | [_] => true
   | a :: b :: r => a.1 < b.1 && sortedKeys (b :: r)
 
+
+theorem sortedKeys_pairwise {V} (l : List (Nat × V)) (h : sortedKeys l = true) :
+    l.Pairwise (fun a b => a.1 < b.1) := by
+  induction l with
+  | nil => simp
+  | cons e r ih =>
+    cases r with
+    | nil => simp
+    | cons e' r =>
+      simp only [sortedKeys, Bool.and_eq_true, decide_eq_true_eq] at h
+      obtain ⟨h1, h2⟩ := h
+      have ihp := ih h2
+      refine List.pairwise_cons.mpr ⟨?_, ihp⟩
+      intro x hx
+      rcases List.mem_cons.mp hx with rfl | hx
+      · exact h1
+      · have := (List.pairwise_cons.mp ihp).1 x hx
+        omega
+
+theorem lookup_eq_none' {V} (k : Nat) (l : List (Nat × V))
+    (h : ∀ x ∈ l, x.1 ≠ k) : l.lookup k = none := by
+  induction l with
+  | nil => rfl
+  | cons x r ih =>
+    obtain ⟨a, v⟩ := x
+    have h0 : a ≠ k := h (a, v) (by simp)
+    have h0' : (k == a) = false := by simp; omega
+    simp only [List.lookup, h0']
+    exact ih (fun x hx => h x (by simp [hx]))
+
+theorem lookup_eq_some' {V} (k : Nat) (l : List (Nat × V))
+    (hp : l.Pairwise (fun a b => a.1 < b.1)) (i : Nat) (hi : i < l.length)
+    (he : l[i].1 = k) : l.lookup k = some l[i].2 := by
+  induction l generalizing i with
+  | nil => simp at hi
+  | cons x r ih =>
+    obtain ⟨a, v⟩ := x
+    cases i with
+    | zero =>
+      simp only [List.getElem_cons_zero] at he
+      simp [List.lookup, he]
+    | succ j =>
+      simp only [List.getElem_cons_succ] at he ⊢
+      have hj : j < r.length := by simpa using hi
+      have h1 := (List.pairwise_cons.mp hp).1 r[j] (by simp)
+      have h0' : (k == a) = false := by simp at h1 ⊢; omega
+      simp only [List.lookup, h0']
+      exact ih (List.pairwise_cons.mp hp).2 j hj he
+
 theorem kvFind_eq_lookup {V} [Inhabited V] (t : Array (Nat × V)) (k : Nat)
     (h : sortedKeys t.toList = true) : kvFind t k = t.toList.lookup k := by
-  sorry
+  have hp := sortedKeys_pairwise _ h
+  unfold kvFind
+  split
+  · rename_i i hi
+    obtain ⟨hlt, he⟩ := bsearchBy_ok _ _ _ hi
+    have := lookup_eq_some' k t.toList hp i (by simpa using hlt)
+      (by simpa [Nat.compare_eq_eq] using he)
+    rw [this, getElem!_pos t i hlt]
+    simp
+  · rename_i i hi
+    have hm : MonoKey (fun e : Nat × V => compare e.1 k) t.toList := by
+      apply monoKey_of_pairwise
+      refine hp.imp ?_
+      intro a b hab
+      simp only [ne_eq, Nat.compare_eq_lt, Nat.compare_eq_gt]
+      omega
+    have := bsearchBy_error _ _ hm _ hi
+    symm
+    apply lookup_eq_none'
+    intro x hx
+    have := this x hx
+    simpa [Nat.compare_eq_eq] using this
 
 /-- pairs `(lo, hi)` ascending and disjoint with `lo ≤ hi` -/
 def sortedPairs : List (Nat × Nat) → Bool
@@ -57,8 +356,62 @@ def sortedPairs : List (Nat × Nat) → Bool
   | [a] => a.1 ≤ a.2
   | a :: b :: r => a.1 ≤ a.2 && a.2 < b.1 && sortedPairs (b :: r)
 
+
+theorem sortedPairs_pairwise (l : List (Nat × Nat)) (h : sortedPairs l = true) :
+    l.Pairwise (fun a b => a.2 < b.1) ∧ ∀ e ∈ l, e.1 ≤ e.2 := by
+  induction l with
+  | nil => simp
+  | cons e r ih =>
+    cases r with
+    | nil => simpa [sortedPairs] using h
+    | cons e' r =>
+      simp only [sortedPairs, Bool.and_eq_true, decide_eq_true_eq] at h
+      obtain ⟨⟨h1, h2⟩, h3⟩ := h
+      obtain ⟨ihp, ihb⟩ := ih h3
+      refine ⟨List.pairwise_cons.mpr ⟨?_, ihp⟩, ?_⟩
+      · intro x hx
+        rcases List.mem_cons.mp hx with rfl | hx
+        · exact h2
+        · have := (List.pairwise_cons.mp ihp).1 x hx
+          have := ihb e' (by simp)
+          omega
+      · intro x hx
+        rcases List.mem_cons.mp hx with rfl | hx
+        · exact h1
+        · exact ihb x hx
+
+theorem pairCmp_eq_lt (cp : Nat) (e : Nat × Nat) : pairCmp cp e = .lt ↔ e.2 < cp := by
+  unfold pairCmp; rw [ite3]; simp
+theorem pairCmp_eq_gt (cp : Nat) (e : Nat × Nat) : pairCmp cp e = .gt ↔ cp ≤ e.2 ∧ cp < e.1 := by
+  unfold pairCmp; rw [ite3]; simp
+theorem pairCmp_eq_eq (cp : Nat) (e : Nat × Nat) :
+    pairCmp cp e = .eq ↔ (decide (e.1 ≤ cp) && decide (cp ≤ e.2)) = true := by
+  unfold pairCmp; rw [ite3]; simp; omega
+
 theorem inPairs_eq_any (t : Array (Nat × Nat)) (cp : Nat) (h : sortedPairs t.toList = true) :
     inPairs t cp = t.toList.any (fun e => e.1 ≤ cp && cp ≤ e.2) := by
-  sorry
+  obtain ⟨hp, hb⟩ := sortedPairs_pairwise _ h
+  unfold inPairs
+  split
+  · rename_i i hi
+    obtain ⟨hlt, he⟩ := bsearchBy_ok _ _ _ hi
+    symm
+    rw [List.any_eq_true]
+    exact ⟨t[i], by simp, (pairCmp_eq_eq _ _).mp he⟩
+  · rename_i i hi
+    have hm : MonoKey (pairCmp cp) t.toList := by
+      apply monoKey_of_pairwise
+      refine hp.imp_of_mem ?_
+      intro a b _ hbm hab
+      have := hb b hbm
+      rw [Ne, pairCmp_eq_lt, pairCmp_eq_gt]
+      omega
+    have := bsearchBy_error _ _ hm _ hi
+    symm
+    rw [List.any_eq_false]
+    intro x hx
+    have := this x hx
+    rw [Ne, pairCmp_eq_eq] at this
+    exact this
 
 end Precis
